@@ -93,6 +93,32 @@ def run_lexer_models(ctx, evals, names, k, invs=None, par=4, workers=4):
             log("TLC MCLexer %s K=%d: %d distinct strings, %.0fs%s" % (key, k, r["distinct"], r["wall_s"], (" VIOLATED " + str(r["violated"])) if r["violated"] else ""))
     return res
 
+COMPOSE_INV = ["ComposeOK", "ComposeAgree", "ComposeSteps"]
+
+def run_compose_models(ctx, evals, nc, np_, depth=1, maxtoks=40, simulate=0, invs=None, par=3, workers=5, tag="comp"):
+    """TLC MCCompose: every context <= nc tokens x every bracketed piece <= np_ tokens (exhaustive, depth 1), or - simulate > 0 -
+    that many random chains of `depth` enclosing contexts (long inputs).  The composite's tree is ParseFn's own."""
+    invs = COMPOSE_INV if invs is None else invs
+    res = {}
+    def one(e):
+        key = "%s_%s" % (tag, e)
+        beh = os.path.join(ctx.wd, "beh_%s.ndjson" % key)
+        cfg = ("CONSTANTS E = \"%s\"\nNc = %d\nNp = %d\nMaxDepth = %d\nMaxToks = %d\nEmitOn = TRUE\nINIT Init\nNEXT Next\nCHECK_DEADLOCK FALSE\nINVARIANT %s\n"
+               % (e, nc, np_, depth, maxtoks, " ".join(list(invs) + ["Emit"])))
+        extra = ["-simulate", "num=%d" % simulate, "-depth", str(depth + 1), "-seed", str(ctx.seed)] if simulate else []
+        r = vlib.tlc("MCCompose", cfg, "%s_%s" % (ctx.prop, key), workers=workers, beh_out=beh, timeout=3 * 3600, extra_args=extra)
+        r.update({"beh_path": beh, "N": nc + np_ + 2, "e": e, "samples": [], "compose": {"Nc": nc, "Np": np_, "depth": depth, "simulate": simulate}})
+        return key, r
+    with cf.ThreadPoolExecutor(max_workers=par) as ex:
+        for key, r in ex.map(one, evals):
+            vlib.tlc_ok(r, "MCCompose %s" % key)
+            if r["beh"] == 0:
+                raise ToolError("MCCompose %s produced no composite (log %s)" % (key, r["log"]))
+            res[key] = r
+            log("TLC MCCompose %s Nc=%d Np=%d depth=%d%s: %d distinct, %d composites, %.0fs%s" % (key, nc, np_, depth, (" simulate=%d" % simulate) if simulate else "",
+                r["distinct"], r["beh"], r["wall_s"], (" VIOLATED " + str(r["violated"])) if r["violated"] else ""))
+    return res
+
 def semantic_models(ctx, w, invs=("C06Exact", "C09IntegerWhenFits", "C09Rounding")):
     """TLC MCSem at word size w (exhaustive over all operand pairs) and ref-selftest of the interpreter at the same w."""
     beh = os.path.join(ctx.wd, "vectors_w%d.ndjson" % w)
@@ -175,7 +201,7 @@ def merge_rules(stats):
             out[k] = out.get(k, 0) + v
     return out
 
-def grammar_check(ctx, cats, n_quick, n_thorough, opts, evals=EVALS, invs=None, level="model_checking", extra_cov=None, profiles=("debug", "release"), lexer=None, sem=None):
+def grammar_check(ctx, cats, n_quick, n_thorough, opts, evals=EVALS, invs=None, level="model_checking", extra_cov=None, profiles=("debug", "release"), lexer=None, sem=None, compose=None):
     prop = ctx.prop
     opt0 = opts[0] if isinstance(opts, list) else opts
     invs = invs if invs is not None else GRAMMAR_INV.get(prop, [])
@@ -184,6 +210,13 @@ def grammar_check(ctx, cats, n_quick, n_thorough, opts, evals=EVALS, invs=None, 
     models = run_grammar_models(ctx, evals, n_of, invs)
     if lexer:
         models.update(run_lexer_models(ctx, evals, lexer["alphabets"], lexer["k_quick"] if ctx.quick() else lexer["k_thorough"], lexer.get("invs")))
+    if compose:
+        c = compose["quick"] if ctx.quick() else compose["thorough"]
+        models.update(run_compose_models(ctx, evals, c[0], c[1]))
+        ch = compose.get("chains")
+        if ch:
+            cc = ch["quick"] if ctx.quick() else ch["thorough"]      # (walks, depth, max tokens)
+            models.update(run_compose_models(ctx, evals, 3, 3, depth=cc[1], maxtoks=cc[2], simulate=cc[0], tag="chain"))
     spec_viol = [(e, r["violated"]) for e, r in models.items() if r["violated"]]
     semr = None
     if sem:
@@ -234,7 +267,8 @@ def grammar_check(ctx, cats, n_quick, n_thorough, opts, evals=EVALS, invs=None, 
            "compared": sum_stats(all_stats, "compared"), "matched": sum_stats(all_stats, "matched"), "not_asserted": sum_stats(all_stats, "not_asserted"),
            "not_asserted_rules": merge_rules(all_stats),
            "rule": "every viable token-kind sequence of length <= N over each evaluator's complete kind vocabulary plus the foreign token (TLC, exhaustive), rendered with %d operand/spelling assignments x placeholders (boundary pools: exhaustive assignment up to the cap), in %s builds; non-trivial = distinct (evaluator,input,placeholder) whose tree has >= %d operator nodes (or, for rejected input, >= 2 tokens)" % (opt0.get("assignments", 2), "/".join(profiles), opt0.get("nontrivial_min_ops", 2)),
-           "N": {e: r["N"] for e, r in models.items()}, "invariants_checked": invs + (LEXER_INV if lexer else []), "exhaustive": True,
+           "N": {e: r["N"] for e, r in models.items()}, "invariants_checked": invs + (LEXER_INV if lexer else []) + (COMPOSE_INV if compose else []), "exhaustive": True,
+           "composition": {k: r["compose"] for k, r in models.items() if r.get("compose")},
            "samples": [x for s in all_stats for x in s.get("samples", [])][:8],
            "max_steps_per_char": max([s.get("max_ticks_ratio", 0) for s in all_stats] + [0]),
            "tlc": {e: {"states": r["states"], "distinct": r["distinct"], "depth": r["depth"], "wall_s": r["wall_s"]} for e, r in models.items()},
@@ -356,8 +390,9 @@ def c01(ctx):
     q = ctx.quick()
     return grammar_check(ctx, {"panic", "abort"}, {"*": 4}, {"*": 6, "f64": 6},
                          [{"assignments": 2, "full_placeholders": True, "event_every": 50, "event_cap": 2000, "reject_suffixes": 2},
-                          {"assignments": 1, "boundary_pool": True, "full_placeholders": True, "max_assign": 200 if q else 4000, "event_every": 500, "event_cap": 1000}],
-                         invs=[], lexer={"alphabets": ["lit", "kw1", "kw2", "kw3", "ops"], "k_quick": 3, "k_thorough": 5})
+                          {"assignments": 1, "boundary_pool": True, "full_placeholders": True, "max_assign": 200 if q else 4000, "event_every": 500, "event_cap": 1000, "compose_assign": 6 if q else 40}],
+                         invs=[], lexer={"alphabets": ["lit", "kw1", "kw2", "kw3", "ops"], "k_quick": 3, "k_thorough": 5},
+                         compose={"quick": (3, 3), "thorough": (4, 4), "chains": {"quick": (6, 14, 100), "thorough": (150, 20, 110)}})
 
 def c03(ctx):
     return grammar_check(ctx, {"ok_on_reject", "err_on_defined"}, {"*": 5}, {"*": 6, "f64": 7}, {"assignments": 2, "event_every": 100, "event_cap": 2000, "nontrivial_min_ops": 1, "reject_suffixes": 2},
@@ -369,7 +404,8 @@ def c04(ctx):
     return grammar_check(ctx, {"value", "err_on_defined", "ok_on_semantic_err"}, {"*": 5}, {"*": 6, "f64": 7},
                          [{"assignments": 3, "event_every": 100, "event_cap": 2000, "nontrivial_min_ops": 2},
                           {"assignments": 1, "boundary_pool": True, "full_placeholders": True, "max_assign": 150 if ctx.quick() else 3000, "event_every": 1000, "event_cap": 500,
-                           "nontrivial_min_ops": 2, "only_models": ["i64", "num"]}])
+                           "nontrivial_min_ops": 2, "only_models": ["i64", "num"]}],
+                         compose={"quick": (3, 3), "thorough": (4, 4)})
 
 def c12(ctx):
     return grammar_check(ctx, {"meta_jux", "ok_on_reject"}, {"*": 5}, {"*": 6, "f64": 7},
@@ -389,17 +425,23 @@ def c20(ctx):
     return grammar_check(ctx, {"meta_subst"}, {"*": 4}, {"*": 5, "f64": 6},
                          {"assignments": 1, "extras": ["subst"], "event_every": 200, "event_cap": 1500, "nontrivial_min_ops": 1})
 
+# the operations each statement speaks about (a tree using anything else is executed but not asserted by that check)
+SCOPE_C05 = {"ops": ["add", "sub", "mul", "div", "mod", "neg", "pow", "const"], "fns": ["Abs", "Floor", "Ceil", "Truncate", "Round", "Sqrt", "Mod", "Pow"]}
+SCOPE_C06 = {"ops": ["add", "sub", "mul", "div", "mod", "pow", "and", "or", "shl", "shr", "neg", "fact"], "fns": ["Abs", "Sign", "Mod", "Pow"]}
+SCOPE_C07 = {"ops": ["add", "sub", "mul", "div", "mod", "neg"], "fns": ["Mod"]}
+SCOPE_C09 = {"ops": ["add", "sub", "mul", "div", "mod", "pow", "neg", "fact"], "fns": ["Abs", "Sign", "Mod", "Pow", "Floor", "Ceil", "Round", "Truncate"]}
+
 def c06(ctx):
     return grammar_check(ctx, {"value", "ok_on_semantic_err", "err_on_defined", "profile_diff", "panic", "abort"}, {"*": 5}, {"*": 6},
                          {"assignments": 1, "boundary_pool": True, "full_placeholders": True, "max_assign": 700 if ctx.quick() else 6000,
-                          "event_every": 500, "event_cap": 2000, "nontrivial_min_ops": 1}, evals=["i64"], invs=[],
-                         sem={"w_quick": 6, "w_thorough": 8, "invs": ("C06Exact",)})
+                          "event_every": 500, "event_cap": 2000, "nontrivial_min_ops": 1, "scope": SCOPE_C06}, evals=["i64"], invs=[],
+                         sem={"w_quick": 6, "w_thorough": 8, "invs": ("C06Exact",)}, compose={"quick": (4, 3), "thorough": (4, 4)})
 
 def c09(ctx):
     return grammar_check(ctx, {"value", "ok_on_semantic_err", "err_on_defined", "profile_diff", "panic", "abort"}, {"*": 5}, {"*": 6},
                          {"assignments": 1, "boundary_pool": True, "full_placeholders": True, "max_assign": 700 if ctx.quick() else 6000,
-                          "event_every": 500, "event_cap": 2000, "nontrivial_min_ops": 1}, evals=["num"], invs=[],
-                         sem={"w_quick": 6, "w_thorough": 8, "invs": ("C09IntegerWhenFits", "C09Rounding")})
+                          "event_every": 500, "event_cap": 2000, "nontrivial_min_ops": 1, "scope": SCOPE_C09}, evals=["num"], invs=[],
+                         sem={"w_quick": 6, "w_thorough": 8, "invs": ("C09IntegerWhenFits", "C09Rounding")}, compose={"quick": (3, 3), "thorough": (4, 4)})
 
 def base_job(ctx, mode, tag, profile, **kw):
     j = {"mode": mode, "vocab": os.path.join(WORK, "vocab.json"), "shard": 0, "nshards": 1, "start": 0,
@@ -666,7 +708,7 @@ def c05(ctx):
     models = run_grammar_models(ctx, ["f64"], (lambda e: 5 if q else 6), [])
     def jobs(profile):
         js = replay_jobs(ctx, None, profile, models, {"assignments": 1, "boundary_pool": True, "full_placeholders": True, "max_assign": 600 if q else 8000,
-                                                        "event_every": 500, "event_cap": 2000, "nontrivial_min_ops": 1, "profile": profile})
+                                                        "event_every": 500, "event_cap": 2000, "nontrivial_min_ops": 1, "profile": profile, "scope": SCOPE_C05})
         js += replay_jobs(ctx, None, profile + "_fc", {"fclass": fr}, {"profile": profile, "event_every": 0})
         return js
     f, s = run_jobs(ctx, jobs)
@@ -681,7 +723,7 @@ def c07(ctx):
     q = ctx.quick()
     return grammar_check(ctx, {"value", "ok_on_semantic_err", "err_on_defined", "profile_diff", "panic", "abort"}, {"*": 5}, {"*": 6},
                          {"assignments": 1, "boundary_pool": True, "full_placeholders": True, "max_assign": 700 if q else 8000,
-                          "event_every": 500, "event_cap": 2000, "nontrivial_min_ops": 1}, evals=["dec"], invs=[])
+                          "event_every": 500, "event_cap": 2000, "nontrivial_min_ops": 1, "scope": SCOPE_C07}, evals=["dec"], invs=[], compose={"quick": (4, 3), "thorough": (4, 4)})
 
 def c08(ctx):
     q = ctx.quick()
